@@ -18,6 +18,11 @@ DEFAULT_RULE = ("cases come from harness/src/gen.rs (one SplitMix64 stream seede
                 "(at least one database/shell/sleep event, or a failure verdict)")
 
 PROPS = {
+    "C03": {
+        "runs": [{"profile": "c03", "n_quick": 15000, "n_thorough": 300000, "nontrivial": "parse"}],
+        "observable": "ok + every field of every parsed record incl. 1-based line numbers | err kind line; compared three ways: implementation = Lean parser model = the records the generator of the text intended",
+        "explanation": "abstract scripts over the full grammar (every record kind, every optional clause: retry, sort mode, label, inline / multi-line / any error, stdout block, conditions, connections, controls, comments, blank and whitespace-only lines) rendered under random layouts: blanks / tabs / NBSP / EM SPACE between header words, trailing blanks, LF or CRLF, with or without final newline, last record with or without terminating blank line",
+    },
     "C05": {
         "runs": [{"profile": "c05", "n_quick": 12000, "n_thorough": 250000, "nontrivial": "fmt"}],
         "observable": "bytes written by Display for the parsed records (+ tail normalisation) and the records obtained by re-parsing them; metamorphic oracle on the implementation alone: parse(fmt s) ~ parse s, fmt(fmt s) = fmt s",
